@@ -1,8 +1,20 @@
 import XcpProofs.FsDefs
+import XcpProofs.WalkMore
 /-! # C02 — exit 0 implies the destination tree mirrors the selected source tree
 
 Model slice: `targetBase` (cp's mapping rule), `walkEntry` (one operation per selected entry, by kind),
-`execOp` (what each operation leaves at its target) and the frame theorems of C03/C08.  -/
+`execOp` (what each operation leaves at its target) and the frame theorems of C03/C08.
+
+What is proved here, per operation and for *plain* targets (`PlainTarget`: absolute, names only, no trailing
+slash, no symbolic link at the target or at any of its ancestors; the tree's root is a directory; the target
+is shorter than the kernel's resolution fuel): the walker emits, first, exactly one operation for an entry,
+chosen by the entry's kind; and each operation, when it succeeds, leaves at its target a directory / a regular
+file with the source's content / a symbolic link with identical target text / the identical special node.
+A run exits 0 exactly when every operation succeeded in sequence.
+
+NOT proved: the induction over the whole tree that composes these per-operation facts with the frame theorems
+(`C03.plain_op_frame`, `C08.fresh_run_preserves`) into "final tree = dest₀ overlaid with the image of the
+selected source tree".  The whole-sandbox end-state correspondence run compares exactly that, on every run. -/
 namespace Xcp.C02
 
 open Xcp
@@ -15,5 +27,82 @@ theorem mapping_rule (fs : Fs) (c : Cfg) (dest src sd : RPath) (h : src.lastComp
   unfold targetBase
   simp only [h]
   cases fs.exists dest <;> cases fs.isDir dest <;> cases c.noTargetDir <;> simp
+
+/-- "regular files as regular files": a successful copy leaves at the target a regular file holding exactly the
+content of the regular file the source designates.
+
+The hypothesis `hsp` (the target is not an EXISTING socket/device/fifo) is needed: in the model, as in the
+kernel, `File::create` on an existing fifo or device opens it for writing without replacing it, and reports
+success — counter-example: `t` a fifo, `s` a regular file; `execOp` succeeds with `fs' = fs` and
+`fs'.contentOf t = none`.  `hroot` (the tree's root is a directory) is well-formedness of the model state:
+with a non-directory root, `/a` resolves to "missing below /" and `setAt` inserts nothing. -/
+theorem copy_leaves_source_content (fs fs' : Fs) (c : Cfg) (s t : RPath) (hp : PlainTarget fs t)
+    (hroot : fs.root.isDir = true) (hlen : t.names.length < 256)
+    (hsp : ∀ k d, fs.root.getAt t.names ≠ some (.special k d))
+    (h : execOp fs c (.copy s t) = some fs') :
+    fs'.contentOf t = fs.contentOf s ∧ fs.contentOf s ≠ none :=
+  execOp_copy_plain fs fs' c s t t.names (plainTarget_eq fs t hp) hroot hlen hp.2.2.2 hsp h
+
+/-- "symbolic links as links with identical target text": a successful link operation leaves at the target
+(not followed) a symbolic link whose text is the one given, byte for byte -/
+theorem link_leaves_identical_text (fs fs' : Fs) (c : Cfg) (text t : RPath) (hp : PlainTarget fs t)
+    (hroot : fs.root.isDir = true) (hlen : t.names.length < 256)
+    (h : execOp fs c (.link text t) = some fs') :
+    fs'.lstat t = some (t.names, .link text) :=
+  execOp_link_plain fs fs' c text t t.names (plainTarget_eq fs t hp) hroot hlen
+    (NoLinkUpto.above hp.2.2.2) h
+
+/-- "directories as directories": after a successful mkdir operation (`create_dir_all`, no extra hypothesis on
+the parent) the target is a directory -/
+theorem mkdir_leaves_directory (fs fs' : Fs) (c : Cfg) (t : RPath) (hp : PlainTarget fs t)
+    (hroot : fs.root.isDir = true) (hlen : t.names.length < 256)
+    (h : execOp fs c (.mkdir t) = some fs') :
+    fs'.isDir t = true :=
+  execOp_mkdir_plain fs fs' c t t.names (plainTarget_eq fs t hp) hroot hlen hp.2.2.2 h
+
+/-- special files (socket, character device, fifo) as the identical special node: same kind, same device
+number; whether the target was absent or was replaced (unlink + mknod) -/
+theorem special_leaves_identical_node (fs fs' : Fs) (c : Cfg) (s t : RPath) (cs : List Name) (k : FileKind)
+    (rdev : Nat) (hp : PlainTarget fs t) (hroot : fs.root.isDir = true) (hlen : t.names.length < 256)
+    (hs : fs.stat s = some (cs, .special k rdev))
+    (h : execOp fs c (.special s t) = some fs') :
+    fs'.lstat t = some (t.names, .special k rdev) :=
+  execOp_special_plain fs fs' c s t t.names cs k rdev (plainTarget_eq fs t hp) hroot hlen
+    (NoLinkUpto.above hp.2.2.2) hs h
+
+/-- one operation per entry, chosen by the entry's kind (no dereference, no gitignore, no no-clobber): the
+FIRST operation the walker emits for an entry that `lstat` finds is a copy for a regular file, a link with the
+link's own text for a symbolic link, a mkdir for a directory, a special-file operation for a socket, character
+device or fifo, and the failure marker for a block device or an unknown kind; the target is `tb` joined with
+the entry's path relative to the source -/
+theorem walk_emits_one_operation_per_kind (fs : Fs) (c : Cfg) (hd : c.dereference = false)
+    (hn : c.noClobber = false) (src tb : RPath) (fuel : Nat) (rel : List Name) (anc : List (List Name))
+    (cp : List Name) (n : Node) (hl : fs.lstat (relJoin src rel) = some (cp, n)) :
+    let first := (walkEntry fs c none src tb (fuel + 1) rel anc).head?
+    (∀ k, n = .file k → first = some (.copy (relJoin src rel) (relJoin tb rel))) ∧
+    (∀ text, n = .link text → first = some (.link text (relJoin tb rel))) ∧
+    (∀ es, n = .dir es → first = some (.mkdir (relJoin tb rel))) ∧
+    (∀ k d, n = .special k d → (k = .socket ∨ k = .chr ∨ k = .fifo) →
+      first = some (.special (relJoin src rel) (relJoin tb rel))) ∧
+    (∀ k d, n = .special k d → (k = .blk ∨ k = .other) → first = some .fail) := by
+  intro first
+  have hh : first = (hereOps n (relJoin src rel) (relJoin tb rel)).head? :=
+    walkEntry_head fs c hd hn src tb fuel rel anc cp n hl
+  refine ⟨?_, ?_, ?_, ?_, ?_⟩
+  · intro k hk; subst hk; rw [hh]; rfl
+  · intro text hk; subst hk; rw [hh]; rfl
+  · intro es hk; subst hk; rw [hh]; rfl
+  · intro k d hk hkind; subst hk; rw [hh]
+    rcases hkind with hk | hk | hk <;> subst hk <;> rfl
+  · intro k d hk hkind; subst hk; rw [hh]
+    rcases hkind with hk | hk <;> subst hk <;> rfl
+
+/-- exit status: a run that exits 0 contained no failure marker, and it exits 0 exactly when every operation,
+run in sequence each on the state left by its predecessors, succeeded (`AllSucceed`); so any failed or refused
+operation — and any stop of the walk — makes the run exit non-zero -/
+theorem failed_run_exits_nonzero_successful_run_ran_everything (fs : Fs) (c : Cfg) (ops : List Op) :
+    ((execOps fs c ops).exit = .ok → ∀ op ∈ ops, op ≠ .fail) ∧
+    ((execOps fs c ops).exit = .ok ↔ AllSucceed c fs ops) :=
+  ⟨execOps_ok_no_fail c ops fs, execOps_ok_iff c ops fs⟩
 
 end Xcp.C02
